@@ -54,8 +54,17 @@ def gen_file(r, bsv, idx, big_ok):
             tail = nblk * 4096 + (4 << 20)
             segs.append([tail, r.choice([1, 4096, 5000])])
             e["falloc"] = [[0, nblk * 4096]]
-            e["sync"] = True
+            # not always flushed: data written into a preallocated range stays flagged 'unwritten' in the extent map until writeback
+            e["sync"] = r.random() < 0.5
             e["size"], e["segs"] = tail + segs[-1][1], segs
+        elif r.random() < 0.3:
+            # freshly written data inside a larger preallocated range, followed by a hole: the file looks sparse
+            pre_len = r.choice([1 << 20, 300000, 2 << 20])
+            dl = r.choice([85500, 4096, pre_len, pre_len - 1])
+            e["falloc"] = [[0, pre_len]]
+            e["sync"] = False
+            e["segs"] = [[0, dl]] + ([[pre_len // 2 + 7, 100]] if dl < pre_len // 2 else [])
+            e["size"] = pre_len + r.choice([3 << 20, (8 << 20) + 1])
     elif kind == "allhole":
         e["size"] = r.choice([1 << 20, (3 << 20) + 17, 10 << 20])
         e["segs"] = []
